@@ -113,7 +113,7 @@ class Metadata:
     def is_error(self):
         return self.metadata["is_error"]
 
-    @query.setter
+    @is_error.setter
     def is_error(self, value):
         value = bool(value)
         self.metadata["is_error"] = value
